@@ -4,6 +4,7 @@
 //!   vh-crash __child <batchfile> <start> <stack>      hidden: runs inputs, reports BEGIN/END lines
 //!   vh-crash __probe [construct ...]                  hidden: smallest overflowing depth per construct and stack size
 //!   vh-crash __parse <construct> <depth> <stack>      hidden: parse_query alone on a nesting construct (attribution)
+//!   vh-crash __gen <n> <seed>                        hidden: print n generated inputs (all features on) as JSON lines
 //!   vh-crash __sdl                                    hidden: print the target schema
 
 mod child;
